@@ -903,13 +903,20 @@ pub fn run(tier: Tier, seed: u64) -> EnumOut {
 	let mut cfgs = configs(tier);
 	shuffle(&mut cfgs, seed);
 	let root = scratch.path().to_path_buf();
+	let t0 = std::time::Instant::now();
+	let wall_cap = Duration::from_secs(if tier == Tier::Thorough { 500 } else { 120 });
 	let mut out = par_map(&cfgs, 16, |chunk, idx| {
 		let mut o = EnumOut::new(rule);
 		let ctx = Ctx::new(&root.join(format!("t{idx}")));
 		let stride = (chunk.len() / 2).max(1);
 		let mut unspecified = 0u64;
 		let mut constructions_run = 0u64;
+		let mut not_run = 0u64;
 		for (i, cfg) in chunk.iter().enumerate() {
+			if t0.elapsed() > wall_cap {
+				not_run += 1;
+				continue;
+			}
 			let ev = eval_config(&ctx, cfg);
 			o.states += 1;
 			o.evaluations += ev.evals;
@@ -936,6 +943,7 @@ pub fn run(tier: Tier, seed: u64) -> EnumOut {
 		}
 		o.extra.insert("probe_entries_unspecified_skipped".into(), json!(unspecified));
 		o.extra.insert("constructions_run".into(), json!(constructions_run));
+		o.extra.insert("configs_not_run_wall_cap".into(), json!(not_run));
 		o
 	});
 	// read-completion leg
@@ -961,6 +969,10 @@ pub fn run(tier: Tier, seed: u64) -> EnumOut {
 		o
 	});
 	out.merge(fo);
+	let nr = out.extra.get("configs_not_run_wall_cap").and_then(Value::as_u64).unwrap_or(0);
+	if nr > 0 {
+		out.caps.push(format!("wall-clock guard ({} s) reached: {nr} configurations were not run", wall_cap.as_secs()));
+	}
 	out.rule = rule.to_string();
 	out.extra.insert("probes".into(), json!(probe_rels().len() * 2));
 	out.assumptions = vec![
